@@ -18,6 +18,11 @@ ALPHABETS = {
     "A001": [0.0, 0.0, 1.0],
     "Ahalf": [0.5, 0.5000001, 0.25],
     "Asmall": [0.0, 0.01, 0.02],      # slopes stay below the floor M = 1 for many trials
+    # value domains: everything below -1; tiny values that cross zero; large negative; values closer than 1e-9
+    "Aneg": [-3.0, -1.5, -1.2],
+    "Atiny": [-1e-6, 0.0, 1e-6],
+    "Anegbig": [-1e6, 0.0, 3.0],
+    "Anear": [1.0, 1.0 + 1e-10, 1.0 - 1e-10],
 }
 
 # (kind, value): how a deviation replaces the default answer
@@ -159,6 +164,21 @@ def standard_plan(ctx, visitor, depths_quick=(8, 7, 6, 5, 5), depths_thorough=(1
         if N >= 2:
             tasks += list(tree_tasks(dict(N=N, r=2.0, box="B1", probe=True), "A013", d, visitor, split=2))
             tasks += list(tree_tasks(dict(N=N, r=2.0, box="B1", startPoint=True), "A013", d - 1, visitor, split=2))
+    # value domains and values of r that the grids above do not contain (powers of two, a large one, one just above 1)
+    for N in (((1, 2, 3) if th else (1, 2)) if extras else ()):
+        d = depths[N - 1] - 1
+        for a in ("Aneg", "Atiny", "Anegbig", "Anear"):
+            tasks += list(tree_tasks(dict(N=N, r=2.0, box=boxes[0]), a, d, visitor, split=2))
+        for r in (4.0, 16.0, 12.5, 1.01):
+            tasks += list(tree_tasks(dict(N=N, r=r, box=boxes[0]), "Am201", d - 1, visitor, split=2))
+    if long_runs and extras:
+        # long runs whose values decrease at every trial, are all negative, huge, or tiny
+        for env in ("dec", "negquad", "big", "tiny"):
+            for N in (1, 2):
+                cfg = dict(N=N, r=2.0 if N == 1 else 3.0, box="B1", env=env)
+                tasks += list(dev_tasks(cfg, 120 if th else 60, 0, visitor))
+                tasks += list(dev_tasks(cfg, 120 if th else 60, 0, visitor, batch=7))
+                tasks += list(dev_tasks(cfg, 40 if th else 24, 1, visitor, chunk=20))
     if long_runs:
         envs = ("abs13", "const", "lin", "stair")
         # into the resolution horizon: monotone / V-shaped objectives iterated until doubles cannot split the interval
